@@ -9,6 +9,11 @@ mod index_map;
 pub use index_map::Equivalent;
 use index_map::IndexMap;
 
+#[cfg(json_syntax_verif)]
+mod verif {
+	include!(concat!(env!("JSON_SYNTAX_VERIF_DIR"), "/incrate/object.rs"));
+}
+
 /// Object key stack capacity.
 ///
 /// If the key is longer than this value,
